@@ -92,6 +92,8 @@ pub struct PentagonConstants {
 
 impl PentagonConstants {
     fn compute() -> Self {
+        #[cfg(feature = "verif")]
+        crate::verif::point(crate::verif::Kind::InitRun, 2, 0);
         // Initial vertex definitions
         let mut a = Face::new(0.0, 0.0);
         let mut b = Face::new(0.0, 1.0);
@@ -166,65 +168,91 @@ static PENTAGON_CONSTANTS: std::sync::LazyLock<PentagonConstants> =
 
 /// Pentagon vertex a
 pub fn a() -> Face {
+    #[cfg(feature = "verif")]
+    crate::verif::point(crate::verif::Kind::LazyAccess, 2, 0);
     PENTAGON_CONSTANTS.vertices.a
 }
 
 /// Pentagon vertex b
 pub fn b() -> Face {
+    #[cfg(feature = "verif")]
+    crate::verif::point(crate::verif::Kind::LazyAccess, 2, 0);
     PENTAGON_CONSTANTS.vertices.b
 }
 
 /// Pentagon vertex c
 pub fn c() -> Face {
+    #[cfg(feature = "verif")]
+    crate::verif::point(crate::verif::Kind::LazyAccess, 2, 0);
     PENTAGON_CONSTANTS.vertices.c
 }
 
 /// Pentagon vertex d
 pub fn d() -> Face {
+    #[cfg(feature = "verif")]
+    crate::verif::point(crate::verif::Kind::LazyAccess, 2, 0);
     PENTAGON_CONSTANTS.vertices.d
 }
 
 /// Pentagon vertex e
 pub fn e() -> Face {
+    #[cfg(feature = "verif")]
+    crate::verif::point(crate::verif::Kind::LazyAccess, 2, 0);
     PENTAGON_CONSTANTS.vertices.e
 }
 
 /// Pentagon shape definition
 pub fn pentagon() -> &'static PentagonShape {
+    #[cfg(feature = "verif")]
+    crate::verif::point(crate::verif::Kind::LazyAccess, 2, 0);
     &PENTAGON_CONSTANTS.pentagon
 }
 
 /// Triangle vertex u
 pub fn u() -> Face {
+    #[cfg(feature = "verif")]
+    crate::verif::point(crate::verif::Kind::LazyAccess, 2, 0);
     PENTAGON_CONSTANTS.triangle_vertices.u
 }
 
 /// Triangle vertex v
 pub fn v() -> Face {
+    #[cfg(feature = "verif")]
+    crate::verif::point(crate::verif::Kind::LazyAccess, 2, 0);
     PENTAGON_CONSTANTS.triangle_vertices.v
 }
 
 /// Triangle vertex w
 pub fn w() -> Face {
+    #[cfg(feature = "verif")]
+    crate::verif::point(crate::verif::Kind::LazyAccess, 2, 0);
     PENTAGON_CONSTANTS.triangle_vertices.w
 }
 
 /// Triangle angle V
 pub fn v_angle() -> Radians {
+    #[cfg(feature = "verif")]
+    crate::verif::point(crate::verif::Kind::LazyAccess, 2, 0);
     PENTAGON_CONSTANTS.triangle_vertices.v_angle
 }
 
 /// Triangle shape definition
 pub fn triangle() -> &'static PentagonShape {
+    #[cfg(feature = "verif")]
+    crate::verif::point(crate::verif::Kind::LazyAccess, 2, 0);
     &PENTAGON_CONSTANTS.triangle
 }
 
 /// Basis matrix for coordinate transformations
 pub fn basis() -> Mat2 {
+    #[cfg(feature = "verif")]
+    crate::verif::point(crate::verif::Kind::LazyAccess, 2, 0);
     PENTAGON_CONSTANTS.basis
 }
 
 /// Inverse basis matrix
 pub fn basis_inverse() -> Mat2 {
+    #[cfg(feature = "verif")]
+    crate::verif::point(crate::verif::Kind::LazyAccess, 2, 0);
     PENTAGON_CONSTANTS.basis_inverse
 }
